@@ -179,7 +179,8 @@ def check_coverage(ctx, chk):
     host, lvl = fi.params[1], fi.params[2]
     G_ = f"{GEN_MOD}:ScenarioGenerator."
     E, P = "G.exploits[each(G.exploits)]", "G.privescs[each(G.privescs)]"
-    true_f = f_or([cn._conj_exists(list(pc), {}) for pc, t in s.returns if t == C(True)])
+    from .shapes import truth_of_returns
+    true_f = truth_of_returns(cn, s.returns)
     vul_e = A(f"{G_}_host_is_vulnerable_to_exploit(G, {host}, {E})")
     vul_p = A(f"{G_}_host_is_vulnerable_to_privesc(G, {host}, {P})")
     want = ("exists", "G.exploits", f_and([
@@ -282,10 +283,37 @@ def check_os_choices(ctx, chk):
         txt = f_show(F)
         sem = "None in " in txt and "EXISTS[G.os]" in txt and txt.count("!") >= 2
         ok_exit = ok_exit or sem
-    chk.ob("C16.escalation-per-os", "os_choices is accepted only if it contains None or every "
-           "declared OS", ok_exit, f_show(F)[:300] if br else "no break found", m.module.path)
-    chk.ob("C16.escalation-per-os", "with fewer escalations than OSs the list starts with None "
-           "(OS-agnostic escalation)", ok_short, "", m.module.path)
+    whiles = [n for n in ast.walk(m.node) if isinstance(n, ast.While)
+              and isinstance(n.test, ast.Constant) and n.test.value is True]
+    if not br or not whiles:
+        # the resampling is not written as `while True: ...; if <accept>: break`: the acceptance
+        # condition of another loop shape is not extracted
+        chk.undecided("C16.escalation-per-os", "os_choices is accepted only if it contains None or "
+                      "every declared OS", "no `while True` ... `break` resampling loop found in "
+                      "_generate_privescs; other loop shapes are not modelled", m.module.path)
+    else:
+        chk.ob("C16.escalation-per-os", "os_choices is accepted only if it contains None or every "
+               "declared OS", ok_exit, f_show(F)[:300], m.module.path)
+    # the short list: some assignment / construction of os_choices starts with a literal None
+    starts_none = ok_short
+    seen_short = ok_short
+    for n in ast.walk(m.node):
+        if isinstance(n, ast.Assign) and isinstance(n.targets[0], ast.Name) \
+                and n.targets[0].id == "os_choices":
+            v = n.value
+            while isinstance(v, ast.BinOp) and isinstance(v.op, ast.Add):
+                v = v.left
+            if isinstance(v, ast.List) and v.elts:
+                seen_short = True
+                if isinstance(v.elts[0], ast.Constant) and v.elts[0].value is None:
+                    starts_none = True
+    if not seen_short:
+        chk.undecided("C16.escalation-per-os", "with fewer escalations than OSs the list starts "
+                      "with None (OS-agnostic escalation)", "no literal-list construction of "
+                      "os_choices found", m.module.path)
+    else:
+        chk.ob("C16.escalation-per-os", "with fewer escalations than OSs the list starts with None "
+               "(OS-agnostic escalation)", starts_none, "", m.module.path)
 
 
 def check_firewall(ctx, chk):
@@ -306,8 +334,16 @@ def check_firewall(ctx, chk):
         ok = F == want and loops == ["G.hosts", "G.exploits"] and \
             cn.show(ev.data["args"][0]) == f"{E}['service']" and f"[{HK}[0]]" in recv
         detail = f"{recv[-60:]}.add({cn.show(ev.data['args'][0])}) under {F[:200]}"
-    chk.ob("C16.firewall", "subnet_services[subnet] collects the service of every exploit some host "
-           "of the subnet is vulnerable to (all hosts x all exploits)", ok, detail, fi.module.path)
+    if len(adds) != 1:
+        # the collection is not written as one `.add(<service>)` site (e.g. update(generator),
+        # a comprehension): that shape is not decoded
+        chk.undecided("C16.firewall", "subnet_services[subnet] collects the service of every "
+                      "exploit some host of the subnet is vulnerable to (all hosts x all exploits)",
+                      f"{detail}; only the single-add-site form is decoded", fi.module.path)
+    else:
+        chk.ob("C16.firewall", "subnet_services[subnet] collects the service of every exploit some "
+               "host of the subnet is vulnerable to (all hosts x all exploits)", ok, detail,
+               fi.module.path)
     # cross-zone branches
     N = "range(len(G.subnets))"
     SRC, DST = f"each({N})", f"each({N})'"
@@ -329,8 +365,14 @@ def check_firewall(ctx, chk):
         from_dst = all(f"[{DST}]" in cn.show(d.data["args"][0]) for d in draws)
         ok = len(whole) == 1 and len(first_add) >= 1 and from_dst and len(draws) >= 1
         detail = f"values {[v[-50:] for v in vals]}; draws from the destination's set: {from_dst}"
-    chk.ob("C16.firewall", "every cross-zone rule is the destination subnet's whole vulnerable-"
-           "service set, or a set holding a draw from it", ok, detail, fi.module.path)
+    if len(cross) != 2:
+        chk.undecided("C16.firewall", "every cross-zone rule is the destination subnet's whole "
+                      "vulnerable-service set, or a set holding a draw from it",
+                      f"{detail}; only the form with one store per branch is decoded",
+                      fi.module.path)
+    else:
+        chk.ob("C16.firewall", "every cross-zone rule is the destination subnet's whole vulnerable-"
+               "service set, or a set holding a draw from it", ok, detail, fi.module.path)
 
 
 def check_shipped(ctx, chk):
